@@ -484,7 +484,7 @@ pub fn run_net_cmd(t: &mut Tok, n: &mut network::Network, cmd: &NetCmd) {
                 Some((_, th)) => Some((&vx, &vy, *th)),
                 None => None,
             };
-            let (tr, vl, va) = n.learn(&xs, &ys, validation, *batch, *epochs, None);
+            let (tr, vl, va) = n.learn(&xs, &ys, validation, *batch, *epochs, print_freq(*batch, *epochs));
             for h in [&tr, &vl, &va] {
                 push_n(t, h.len());
                 h.iter().for_each(|e| out_f(t, *e));
@@ -564,5 +564,16 @@ pub fn run_net_cmd(t: &mut Tok, n: &mut network::Network, cmd: &NetCmd) {
             enc_tensor_out(t, &wg);
             enc_opt_tensor_out(t, &bg);
         }
+    }
+}
+
+/// the `print` argument of `learn` (console reporting every p epochs) as a function of the case: the
+/// result of `learn` must not depend on it, so the model ignores it and the harness varies it
+pub fn print_freq(batch: usize, epochs: i32) -> Option<i32> {
+    match (batch + epochs.max(0) as usize) % 4 {
+        0 => None,
+        1 => Some(1),
+        2 => Some(2),
+        _ => Some(5),
     }
 }
